@@ -11,14 +11,28 @@ def offsets : Nat → List Nat → List Nat
   | _, [] => []
   | start, n :: ns => start :: offsets (start + n) ns
 
-/-- **Each failure is recorded against exactly the index whose slice contains it, at its local position** -/
-theorem errors_exact : ∀ (sizes : List Nat) (start : Nat) (errs : List Nat), (∀ e ∈ errs, start ≤ e) →
+/-- reference semantics of the hand-back loop: slice `[start, start+n)`, local position `e - start` -/
+def rebaseRef : Nat → List Nat → List Nat → List (List Nat)
+  | _, _, [] => []
+  | start, errs, n :: ns =>
+      (errs.filter (· < start + n)).map (· - start) :: rebaseRef (start + n) (errs.filter fun e => !decide (e < start + n)) ns
+
+/-- the formulas GENERATED from `Component.activate_index` (`Gen.stopOf`, `Gen.errBelongs`, `Gen.errLocal`,
+    `Gen.nextStart`) implement the reference semantics — re-checked against the source on every run -/
+theorem generated_rebase_is_reference : ∀ (sizes : List Nat) (start : Nat) (errs : List Nat),
+    rebaseErrors start errs sizes = rebaseRef start errs sizes
+  | [], _, _ => rfl
+  | n :: ns, start, errs => by
+      rw [rebaseErrors, rebaseRef, generated_rebase_is_reference ns]
+      rfl
+
+theorem errors_exact_ref : ∀ (sizes : List Nat) (start : Nat) (errs : List Nat), (∀ e ∈ errs, start ≤ e) →
     ∀ (i : Nat) (hi : i < sizes.length) (j : Nat), j < sizes[i] →
-      (j ∈ (rebaseErrors start errs sizes).getD i [] ↔ (offsets start sizes).getD i 0 + j ∈ errs)
+      (j ∈ (rebaseRef start errs sizes).getD i [] ↔ (offsets start sizes).getD i 0 + j ∈ errs)
   | [], _, _, _, i, hi, _, _ => by simp at hi
   | n :: ns, start, errs, hge, 0, _, j, hj => by
       simp only [List.getElem_cons_zero] at hj
-      simp only [rebaseErrors, offsets, List.getD_cons_zero, List.mem_map, List.mem_filter, decide_eq_true_eq]
+      simp only [rebaseRef, offsets, List.getD_cons_zero, List.mem_map, List.mem_filter, decide_eq_true_eq]
       constructor
       · rintro ⟨e, ⟨he, _⟩, rfl⟩
         have := hge e he
@@ -28,8 +42,8 @@ theorem errors_exact : ∀ (sizes : List Nat) (start : Nat) (errs : List Nat), (
         exact ⟨start + j, ⟨h, by omega⟩, by omega⟩
   | n :: ns, start, errs, hge, i + 1, hi, j, hj => by
       simp only [List.getElem_cons_succ] at hj
-      simp only [rebaseErrors, offsets, List.getD_cons_succ]
-      have ih := errors_exact ns (start + n) (errs.filter fun e => !decide (e < start + n))
+      simp only [rebaseRef, offsets, List.getD_cons_succ]
+      have ih := errors_exact_ref ns (start + n) (errs.filter fun e => !decide (e < start + n))
         (by intro e he; simp only [List.mem_filter, Bool.not_eq_eq_eq_not, Bool.not_true, decide_eq_false_iff_not] at he; omega)
         i (by simpa using hi) j hj
       rw [ih]
@@ -53,6 +67,13 @@ theorem errors_exact : ∀ (sizes : List Nat) (start : Nat) (errs : List Nat), (
                   omega
         have := this ns (start + n) i (by simpa using hi)
         omega
+
+/-- **Each failure is recorded against exactly the index whose slice contains it, at its local position** -/
+theorem errors_exact (sizes : List Nat) (start : Nat) (errs : List Nat) (hge : ∀ e ∈ errs, start ≤ e)
+    (i : Nat) (hi : i < sizes.length) (j : Nat) (hj : j < sizes[i]) :
+    (j ∈ (rebaseErrors start errs sizes).getD i [] ↔ (offsets start sizes).getD i 0 + j ∈ errs) := by
+  rw [generated_rebase_is_reference]
+  exact errors_exact_ref sizes start errs hge i hi j hj
 
 /-- **Imputed values are used only where a value is missing**: a stored (non-NaN) value is returned untouched -/
 theorem imputed_only_where_missing (v : Q) (imp : Stored) : substitute (some v) imp = some v := rfl
